@@ -491,6 +491,18 @@ class Model:
         except Exception:  # noqa: BLE001
             return False
 
+    def replay_exception(self, history, exc):
+        """Finding for a history that raises when replayed from scratch: locate the raising op."""
+        w = self.build(history[:1])
+        for i, op in enumerate(history[1:]):
+            try:
+                self.apply(w, op)
+            except Exception as e:  # noqa: BLE001
+                wb = self.build(history[:1 + i])
+                return self.on_exception(wb, history[:1 + i], op, e)
+        return {"key": "C09:I4:exception:replay:%s" % type(exc).__name__, "msg": "history %s raises %r" % (history, exc),
+                "detail": {"history": history}}
+
     def on_exception(self, w, history, op, exc):
         # radial periodic is excluded from the menu; any exception of a supported operation is a finding
         p = op.split(":")
